@@ -17,13 +17,19 @@
 (* (the code before the repair).  Protocol = "atomic": the compiler writes  *)
 (* a private file in the cache directory which is renamed onto the final    *)
 (* name (the current tree).  A process can be killed at any step; the       *)
-(* compiler child either dies with it or runs to completion.                *)
+(* compiler child either dies with it or runs to completion.  The compiler  *)
+(* child alone may also be killed (CcKilled: out of memory, a signal) while *)
+(* its parent lives: compile_model then raises, the private output is       *)
+(* removed and that process gets no kernel - nothing is published.          *)
+(* SignalDeath = "success" (a compiler that died from a signal is taken to  *)
+(* have succeeded) is a failing control.                                    *)
 (***************************************************************************)
 EXTENDS Naturals, FiniteSets, TLC
 
 CONSTANTS Procs,        \* process identities (some start late = "the next attempt")
           MaxCrashes,
-          Protocol      \* "inplace" | "atomic"
+          Protocol,     \* "inplace" | "atomic"
+          SignalDeath   \* "failure" (a compiler killed by a signal is a failed compile) | "success" (failing control)
 
 VARIABLES final,   \* state of the final library path: "absent" | "partial" | "complete"
           priv,    \* [Procs -> "absent" | "partial" | "complete"]  private compiler output (atomic)
@@ -35,7 +41,7 @@ VARIABLES final,   \* state of the final library path: "absent" | "partial" | "c
 vars == <<final, priv, src, pc, cc, got, crashes>>
 
 Labels == {"idle", "lookup", "writesrc", "ccbegin", "cchalf", "ccend", "publish", "unlink",
-           "dlopen", "done", "dead"}
+           "dlopen", "done", "dead", "failed"}
 
 Init ==
     /\ final = "absent"
@@ -107,6 +113,18 @@ Crash(p, killchild) ==
     /\ pc' = [pc EXCEPT ![p] = "dead"]
     /\ cc' = [cc EXCEPT ![p] = IF killchild THEN FALSE ELSE @]
     /\ UNCHANGED <<final, priv, src, got>>
+\* the compiler child of a living process is killed after it has created (and half written) its output
+CcKilled(p) ==
+    /\ pc[p] \in {"cchalf", "ccend"} /\ cc[p]
+    /\ crashes < MaxCrashes
+    /\ crashes' = crashes + 1
+    /\ cc' = [cc EXCEPT ![p] = FALSE]
+    /\ IF SignalDeath = "success" /\ Protocol = "atomic"
+       THEN pc' = [pc EXCEPT ![p] = "publish"] /\ UNCHANGED <<final, priv>>       \* goes on with the partial file
+       ELSE /\ pc' = [pc EXCEPT ![p] = "failed"]                                   \* compile_model raises
+            /\ IF Protocol = "atomic" THEN priv' = [priv EXCEPT ![p] = "absent"] /\ UNCHANGED final   \* finally: unlink
+               ELSE UNCHANGED <<final, priv>>
+    /\ UNCHANGED <<src, got>>
 \* an orphaned compiler finishes its output
 OrphanCcEnd(p) == /\ pc[p] = "dead" /\ cc[p]
                   /\ SetOut(p, "complete")
@@ -115,7 +133,7 @@ OrphanCcEnd(p) == /\ pc[p] = "dead" /\ cc[p]
 
 Step(p) == \/ Start(p) \/ Lookup(p) \/ WriteSrc(p) \/ CcBegin(p) \/ CcHalf(p) \/ CcEnd(p)
            \/ Publish(p) \/ Unlink(p) \/ Dlopen(p) \/ OrphanCcEnd(p)
-Next == \E p \in Procs : Step(p) \/ Crash(p, TRUE) \/ Crash(p, FALSE)
+Next == \E p \in Procs : Step(p) \/ Crash(p, TRUE) \/ Crash(p, FALSE) \/ CcKilled(p)
 Spec == Init /\ [][Next]_vars /\ \A p \in Procs : WF_vars(Step(p))
 
 TypeOK == /\ final \in {"absent", "partial", "complete"}
@@ -133,5 +151,5 @@ NothingPartialLeft == ~CompilerRunning => final # "partial"
 \* with the atomic protocol the final name is never partial at all
 FinalNeverPartial == Protocol = "atomic" => final # "partial"
 \* liveness: every process that is not killed finishes
-Terminates == <>(\A p \in Procs : pc[p] \in {"done", "dead"})
+Terminates == <>(\A p \in Procs : pc[p] \in {"done", "dead", "failed"})
 =============================================================================
